@@ -273,6 +273,17 @@ def run(ctx, chk, tier):
             v, err = eval_fn(ctx, chk, MET + name, [M], {"alpha": A})
         finally:
             ctx.ev.stubs.pop(q, None)
+        if v is None and seen:
+            # several paths although the helper was reached: each call of the helper must receive alpha itself - a branch on alpha that
+            # hands over 1 - alpha (or refuses part of (0, 1)) changes the interval for part of the documented range
+            alphas = {show(b_.get("alpha"), 80) for b_ in seen}
+            outs_ = ctx.explore(lambda: ctx.ev.call(ctx.fn(MET + name), [M], {"alpha": A}), chk)
+            conds = [c_ for o_ in outs_ for c_, _t in o_.pc]
+            only_alpha = bool(conds) and all(all((not isinstance(a_, Sym)) or a_ == A for a_ in atoms_of(c_)) and any(a_ == A for a_ in atoms_of(c_)) for c_ in conds)
+            if only_alpha and (alphas != {show(A, 80)} or any(o_.kind == "raise" for o_ in outs_)):
+                chk.violation("R04.4", MET + name, "alpha-branch", "behaviour branches on alpha: %s; binomial_ci receives alpha in %s" % (sorted({show(c_, 60) for c_ in conds})[:3], sorted(alphas)),
+                              "the same formula with the caller's alpha for every alpha in (0, 1)", ctx.where(MET + name))
+                continue
         if v is None or not seen:
             chk.unknown("R04.4", "metrics.%s: %s" % (name, err or "does not call binomial_ci"))
             continue
